@@ -233,9 +233,23 @@ def run_shard(shard, env):
                 break
         res.count("exhaustive strings", n // 3)
         exhaustive_n = n
+        # the same specifier strings again at other terminal sizes, in the same process:
+        # terminal-relative padding (absent / zero dimensions) must follow the terminal
+        resize_specs = ["", "<", ">0", ".^", "|._", "<.^#", "0.0", ".0", "5", ".3", "<0.-0+" + "W", "|#.5"]
+        for (c_, r_) in ((30, 9), (7, 3), (12, 6)):
+            env.set_winsize(c_, r_, c_ * 8, r_ * 16)
+            for spec in resize_specs:
+                for style in ("block", "kitty", "iterm2"):
+                    if "+" in spec and style == "block":
+                        continue
+                    check_one(spec, style, st, res, env, via_draw=(style == "block"))
+                    res.count("specs re-evaluated after a terminal resize")
         rnd = random.Random("%s/c19/%s" % (shard["seed"], shard["index"]))
         seen = set()
         for _ in range(RANDOM[tier] // shard["n"]):
+            if rnd.random() < 0.02:
+                c_, r_ = rnd.randint(3, 40), rnd.randint(2, 14)
+                env.set_winsize(c_, r_, c_ * 8, r_ * 16)
             style = rnd.choice(["block", "kitty", "iterm2"])
             spec = gen_sentence(rnd, style)
             check_one(spec, style, st, res, env, via_draw=(rnd.random() < 0.05))
